@@ -270,6 +270,12 @@ def dro_case(draw, polyhedral=True, allow_kl=False, max_scen=4, allow_lift=True,
     ymask = [[0] * nw for _ in range(ny)]
     if ny and affine_ok and draw(st.integers(0, 2)) == 0:
         ymask = [[draw(st.integers(0, 1)) for _ in range(nw)] for _ in range(ny)]
+    elif ny2 and affine_ok and draw(st.booleans()):
+        # two arrays that are both event-wise and affinely adaptive (their coefficient blocks are laid out one after the other)
+        ymask = [[draw(st.integers(0, 1)) for _ in range(nw)] for _ in range(ny)]
+        for k in (0, ny - 1):
+            if not any(ymask[k]):
+                ymask[k][draw(st.integers(0, nw - 1))] = 1
     xbar = [float(draw(st.integers(-2, 3))) for _ in range(nx)]
     ybar = [float(draw(st.integers(-2, 3))) for _ in range(ny)]
     xlo = [v - draw(st.sampled_from([0.0, 1.0, 2.0])) for v in xbar]
@@ -307,6 +313,19 @@ def dro_case(draw, polyhedral=True, allow_kl=False, max_scen=4, allow_lift=True,
                        'slack': draw(st.sampled_from([0.0, 0.5, 1.0, 2.0])), 'sense': row['sense']}
                 row['alt'] = alt
         cons.append(row)
+    if econs and draw(st.integers(0, 3)) == 0:
+        # one array-valued expectation constraint E(A x + B y + C w + c) <= 0 (>= 0) of two or three rows
+        sense, a_ = draw(st.sampled_from(['le', 'ge'])), (1 if amb2 is not None and draw(st.booleans()) else 0)
+        for _ in range(draw(st.integers(2, 3))):
+            row = {'a0': _vec(draw, nx), 'b': _vec(draw, ny), 'c': _vec(draw, nw), 'c0': None,
+                   'slack': draw(st.sampled_from([0.0, 0.0, 0.5, 1.0])), 'sense': sense, 'style': 0, 'E': True, 'vec': 1}
+            if a_:
+                row['amb'] = 1
+            if not (any(row['a0']) or any(row['b'])):
+                row['a0'][0] = 1.0
+            if not any(row['c']):
+                row['c'][draw(st.integers(0, nw - 1))] = 1.0
+            cons.append(row)
     if amb2 is not None and econs and not any(r.get('E') and r.get('amb') for r in cons) and draw(st.booleans()):
         # an expectation constraint over the second ambiguity set (its probability set differs from the objective's)
         row = {'a0': _vec(draw, nx), 'b': _vec(draw, ny), 'c': _vec(draw, nw), 'c0': None,
@@ -585,7 +604,28 @@ def build(case):
         if nu and c[nz]:
             e = e + float(c[nz]) * u
         return e
+    vrows = [r for r in case['cons'] if r.get('vec')]
+    if vrows:
+        A0 = np.array([r['a0'] for r in vrows])
+        e = A0 @ x + np.array([r['c0'] for r in vrows])
+        Bm = np.array([r['b'] for r in vrows]) if ny else None
+        if ny1 and np.any(Bm[:, :ny1]):
+            e = e + Bm[:, :ny1] @ ya
+        if ny2 and np.any(Bm[:, ny1:]):
+            e = e + Bm[:, ny1:] @ yb
+        Cm = np.array([r['c'] for r in vrows])
+        e = e + Cm[:, :nz] @ z
+        if nu and np.any(Cm[:, nz]):
+            e = e + Cm[:, nz] * u
+        con = (E(e) <= 0) if vrows[0]['sense'] == 'le' else (E(e) >= 0)
+        if vrows[0].get('amb'):
+            con = con.forall(fset2)
+        elif vrows[0].get('amb_explicit'):
+            con = con.forall(fset)
+        m.st(con)
     for row in case['cons']:
+        if row.get('vec'):
+            continue
         e = row_expr(row, row['style'], row.get('explicit_zero'))
         if row.get('E'):
             if row.get('alt'):
@@ -875,6 +915,19 @@ def p_candidates(case, gains):
 
 # ----------------------------------------------------------------------------- reference (C04)
 def reference_optimum(case, max_rounds=60, tol=1e-7):
+    """see _reference_optimum. Rule coefficients carry an artificial bound B; when it is active at the optimum (coefficients on
+    directions in which a support has no width are arbitrary) the problem is solved again with B/100: the optimal value is convex
+    and non-increasing in B, so equal values for B = 1e2 and B = 1e4 mean that the bound does not matter"""
+    ref, info = _reference_optimum(case, max_rounds, tol, 1e4)
+    if ref is None and info == 'artificial bound active':
+        r2, i2 = _reference_optimum(case, max_rounds, tol, 1e2, accept_bound=True)
+        r1, i1 = _reference_optimum(case, max_rounds, tol, 1e4, accept_bound=True)
+        if r1 is not None and r2 is not None and abs(r1 - r2) <= 1e-7 * (1 + abs(r1)):
+            return r2, i2
+    return ref, info
+
+
+def _reference_optimum(case, max_rounds=60, tol=1e-7, B=1e4, accept_bound=False):
     """min over (x, event-wise rules with declared masks) of the worst-case expectation, by cutting planes with the exact
     inner moment LP.  Only for polytope supports and polyhedral probability sets."""
     S, nx, ny, nz, nu = case['S'], case['nx'], case['ny'], case['nz'], case['nu']
@@ -946,7 +999,7 @@ def reference_optimum(case, max_rounds=60, tol=1e-7):
                     coef += np.array(row['b']) @ ycoef(s, w)
                 const = float(np.array(row['c']) @ w + row['c0'])
                 A_ub.append(sg * coef); b_ub.append(-sg * const)
-    bounds = [(case['xlo'][i], case['xhi'][i]) for i in range(nx)] + [(-1e4, 1e4)] * (nv - 1 - nx) + [(-1e7, 1e7)]
+    bounds = [(case['xlo'][i], case['xhi'][i]) for i in range(nx)] + [(-B, B)] * (nv - 1 - nx) + [(-1e7, 1e7)]
     cost = np.zeros(nv)
     cost[T] = 1.0
 
@@ -1026,7 +1079,7 @@ def reference_optimum(case, max_rounds=60, tol=1e-7):
             A_ub.append(sg * coef); b_ub.append(-sg * const)
             ecut += 1
         if cuts and ecut == 0 and gap <= tol * (1 + abs(val)):
-            if np.any(np.abs(v[nx:T]) > 0.99e4):
+            if not accept_bound and np.any(np.abs(v[nx:T]) > 0.99 * B):
                 return None, 'artificial bound active'
             return float(val), {'rounds': rnd + 1, 'x': x, 'y0': y0, 'Y': Y, 'p': p, 'erow_active': eact}
         coef = np.zeros(nv)
